@@ -191,6 +191,26 @@ def run(ctx):
         ctx.construct(ps, extra='only captured jobs'),
         'store jobs are invoked without passing the capture filter',
         ctx.loc(ps))
+    # every due job of the store is tried: the capture is the only filter
+    # and it is applied to everything the query returned (a job this
+    # instance also holds in memory is not skipped - if its dispatcher never
+    # gets to it, nobody else would run it)
+    okall = False
+    if comp:
+        g = comp[0].generators[0]
+        cands = [x for x in own_nodes(ps.node) if isinstance(x, ast.Assign)
+                 and dotted(x.targets[0]) == dotted(g.iter) and
+                 isinstance(x.value, ast.Call) and
+                 U.call_name(x.value) == 'get_scheduled_jobs_to_start']
+        okall = len(comp[0].generators) == 1 and len(g.ifs) == 1 and \
+            isinstance(g.ifs[0], ast.Call) and \
+            U.call_name(g.ifs[0]) == '_capture_scheduled_job' and \
+            [norm(a) for a in g.ifs[0].args] == [norm(g.target)] and \
+            norm(comp[0].elt) == norm(g.target) and len(cands) == 1
+    r2.check(okall, ctx.construct(ps, extra='every due job is tried'),
+             'the jobs returned by the store query are filtered by something '
+             'other than the capture itself: a committed, due, uncaptured '
+             'job can be skipped on every poll', ctx.loc(ps))
     if inv and dele:
         r2.check(cfg.must_pass(inv[0][0], [d for d, _c in dele],
                                exits=[cfg.exit] + [x for x in cfg.nodes
@@ -554,6 +574,39 @@ def job_invocation(ctx, rule):
                'the security context / arguments handed to the invocation '
                'are not (copies of) the ones stored with the job',
                ctx.loc(pj))
+    # ... and what _persist_job stored as the context is always something
+    # deserialize_context can take (it calls .pop on it): the serialised
+    # context, or an empty dict when the caller had none
+    sj = prog.func(DS + '._persist_job')
+    vals = None
+    for x in own_nodes(sj.node):
+        if isinstance(x, ast.Assign) and isinstance(x.value, ast.Dict):
+            for k, v in zip(x.value.keys, x.value.values):
+                if isinstance(k, ast.Constant) and k.value == 'auth_ctx':
+                    vals = v
+                    ds = [y.value for y in own_nodes(sj.node)
+                          if isinstance(y, ast.Assign) and
+                          isinstance(v, ast.Name) and
+                          dotted(y.targets[0]) == v.id]
+                    if isinstance(v, ast.Name):
+                        if len(ds) != 1:
+                            raise AnalysisError('_persist_job: %s bound %d '
+                                                'times' % (v.id, len(ds)))
+                        vals = ds[0]
+    if vals is None:
+        raise AnalysisError('_persist_job: auth_ctx of the stored row')
+    alts = [vals]
+    while any(isinstance(a, ast.IfExp) for a in alts):
+        alts = [b for a in alts for b in
+                ((a.body, a.orelse) if isinstance(a, ast.IfExp) else (a,))]
+    okc = all(isinstance(a, ast.Dict) or
+              (isinstance(a, ast.Call) and
+               U.call_name(a) == 'serialize_context') for a in alts)
+    rule.check(okc, ctx.construct(sj, extra='stored context is a dict'),
+               'the security context stored with a job can be something '
+               'other than a serialised context / an empty dict: '
+               'deserialize_context fails on it before the job function is '
+               'called, on every attempt', ctx.loc(sj))
     des = [c for c in own_nodes(pj.node) if isinstance(c, ast.Call) and
            U.call_name(c) == 'deserialize']
     stores = [x for x in own_nodes(pj.node) if isinstance(x, ast.Assign) and
